@@ -69,6 +69,11 @@ PRELUDES = {   # name: (code, leaky?)
     'trace': ("start_trace()\nrun()\n", True),
     'hide': ("hide_correctness()\n", True),
     'sections': ("separate_into_sections()\nnext_section()\nverify()\n", True),
+    # the instructor looks at a second text (a reference solution, another file) in a report of its own, section by section;
+    # nothing resolves that report, so nothing stops its sections
+    'sections-other-report': ("from pedal.core.report import Report as _Report\nfrom pedal.core.submission import Submission as _Submission\n_second = _Report()\n"
+                              "contextualize_report(_Submission(main_code='a = 1\\nb = 2\\n##### Part 1\\nc = 3\\n##### Part 2\\nd = 4\\n', main_file='answer.py'), report=_second)\n"
+                              "separate_into_sections(report=_second)\nnext_section(report=_second)\nnext_section(report=_second)\n", True),
     'clear-output': ("clear_output()\nget_sandbox().clear_data()\nrun()\n", True),
 }
 BODIES = {
